@@ -89,3 +89,8 @@ chk("C19", "exploration",
     "archives are run through the built car binary, outputs compared with the reference encoding of the operator's result, and every emitted archive checked with car inspect --full / car verify.",
     "All sub-commands on all bounded archives; filter flag combinations sampled. " + TB,
     "TLA+ operators as oracle + real CLI runs with closure under the tool's own verifier", "DESIGN.md §3 C19")
+chk("C15", "model_checking",
+    "Traversal.tla is an explicit DFS machine (selector, visit-once, link budget) over all small DAGs; its predicted load sequence agrees with the real engine (drift check) and every case is run through all "
+    "traversal writers of both modules, with the observed loads as oracle for content/order and all announced sizes, counts, callbacks and Dump/Write compared.",
+    "Exhaustive within: DAGs over 4 nodes, 4 selectors, visit-once on/off, 3 budgets. " + TB,
+    "TLA+ DFS model + TLC-enumerated DAGs replayed through the traversal writers", "DESIGN.md §3 C15")
